@@ -9,7 +9,8 @@
 void verif_on_error (void) { }
 void harness (void)
 {
-  static struct { array_t a; svalue_t rest[3]; } SA; array_t *a = &SA.a; char d[2]; char *r; int i, nstr = 0; size_t want = 0, k = 0;
+  /* typed array block (hook VERIF_ARRAY_ITEMS): all three elements are read precisely */
+  static array_t SA; array_t *a = &SA; char d[2]; char *r; int i, nstr = 0; size_t want = 0, k = 0;
   static char s0[2], s1[2], s2[2]; char *ss[3] = { s0, s1, s2 };
   verif_in_init ();
   __CPROVER_assume (IN.del != 0);
